@@ -18,6 +18,7 @@ class Lib:
         self.toploop = rng.random() < 0.4
         self.glob_in_func = rng.random() < 0.7
         self.std = rng.random() < 0.25
+        self.early = rng.random() < 0.3          # a statement between the imports and the first definition of the file
         self.salt = rng.randrange(1000)
 
     def source(self):
@@ -37,6 +38,8 @@ class Lib:
             out += ["\t" + i for i in imps]
             out.append(")")
         out.append("// salt %d" % self.salt)
+        if self.early:
+            out.append('print("early %d")' % k)
         out.append("var G%d int = %d" % (k, 10 * k))
         out.append("var g%d int = %d" % (k, k))
         out.append("func helper%d(x int) int {" % k)
@@ -111,6 +114,8 @@ class World:
         for d in deps:
             self.init(d)
         self.inited.append(k)
+        if l.early:
+            self.out.append("early %d" % k)
         if l.toplevel:
             self.out.append("init %d %d" % (k, self.G[k]))
         if l.topcall:
@@ -148,6 +153,39 @@ def gen_case(rng, idx):
     main_imports = rng.sample(sorted(libs), rng.randrange(1, n + 1))
     if rng.random() < 0.2:
         main_imports.append(rng.choice(main_imports))           # same file under a second alias
+    return build_case(rng, idx, libs, main_imports)
+
+
+def directed_graphs(rng):
+    """every small graph with a file reached twice x the importing files with / without top-level code, while the file that is
+    reached twice has NO top-level effects (so the programs are outside the region of the known finding multipath-import-runs-twice):
+    round 6 regression, C09-3 (everything after a duplicate definition dropped from the importing file) was a matter of luck"""
+    shapes = [({1: (3, []), 2: (3, []), 3: (None, [])}, [1, 2]), ({1: (None, [])}, [1, 1]), ({1: (2, [3]), 2: (3, []), 3: (None, [])}, [1]),
+              ({1: (2, []), 2: (3, []), 3: (None, [])}, [1, 3]), ({1: (2, []), 2: (None, [])}, [1, 2, 1])]
+    flagsets = [dict(toplevel=a, topcall=b_, toploop=c, glob_in_func=d, early=e) for a, b_, c, d, e in
+                ((True, True, True, True, True), (False, False, False, False, False), (True, False, False, False, False), (False, True, False, False, False),
+                 (False, False, True, False, False), (False, False, False, True, False), (False, False, False, False, True))]
+    out = []
+    i = 0
+    for graph, main_imports in shapes:
+        for fl in flagsets:
+            for std in (False, True):
+                libs = {k: Lib(k, rng) for k in graph}
+                for k, (dep, extra) in graph.items():
+                    libs[k].dep, libs[k].extra_imports = dep, list(extra)
+                    libs[k].std = std and k == min(graph)
+                    libs[k].trace = False
+                mp = multipath(libs, main_imports)
+                for k in libs:
+                    for f_, v in fl.items():
+                        setattr(libs[k], f_, v and k not in mp)
+                out.append(build_case(rng, "d%d" % i, libs, main_imports))
+                i += 1
+    return out
+
+
+def build_case(rng, idx, libs, main_imports):
+    n = len(libs)
     aliases = ["m%d" % i for i in range(len(main_imports))]
     w = World(libs)
     w2 = World(libs, duplicate=True)
@@ -192,8 +230,8 @@ def gen_case(rng, idx):
         if k in w.inited or True:
             files["lib%d.tsh" % k] = l.source().encode()
     mp = multipath(libs, main_imports)
-    dup_effects = any(libs[k].toplevel or libs[k].topcall or libs[k].toploop or libs[k].glob_in_func for k in mp)
-    return pipeline.Case("g%d" % idx, files, meta=dict(expected_out=w.out, expected_status=0, multipath=sorted(mp), dup_effects=dup_effects, defect_out=w2.out,
+    dup_effects = any(libs[k].toplevel or libs[k].topcall or libs[k].toploop or libs[k].glob_in_func or libs[k].early for k in mp)
+    return pipeline.Case("g%s" % idx, files, meta=dict(expected_out=w.out, expected_status=0, multipath=sorted(mp), dup_effects=dup_effects, defect_out=w2.out,
                                                        src="\n".join("// ---- %s\n%s" % (n_, c.decode()) for n_, c in files.items())))
 
 
@@ -253,7 +291,7 @@ def run(res, b, tier, seed):
         res.violation("build", dict(harness=b.harness_error, model=b.model_error), no_input=True)
         return
     n = 300 if tier == "quick" else 4000
-    cases = [gen_case(rng, i) for i in range(n)]
+    cases = directed_graphs(random.Random(9)) + [gen_case(rng, i) for i in range(n)]
     neg = [pipeline.Case("n" + name, {k: v.encode() for k, v in files.items()}, meta=dict(negative=True, src=files["main.tsh"])) for name, files in NEGATIVE]
     dis, fails = semcheck.check_cases(b, cases)
     pipeline.run_pipe(b, neg, "as")
